@@ -20,7 +20,7 @@ struct CycleObs {
 int run_cycle(const Args& a) {
     uint64_t seed = a.num("seed", 1);
     uint64_t cycles = a.num("cycles", 5);
-    uint64_t cap_periods = a.num("cap_periods", 400);
+    uint64_t cap_periods = a.num("cap_periods", 3000);
     Report rep(a.str("prop", "C16"), "seq_cycle", seed);
     rep.set_rule("one process runs N init..fin cycles (some end with sessions still open, some call destroy() in the middle and keep working). After each init(): list_storages is empty, exactly YAKUSHIMA_MAX_PARALLEL_SESSIONS "
                  "enters succeed, keys of earlier cycles are invisible; a fixed measurement script retires values and nodes and waits - bounded by a number of epoch periods, not by a verdict on wall-clock - until the global epoch "
@@ -142,10 +142,12 @@ int run_cycle(const Args& a) {
         for (auto& p : alloc::take_problems()) { rep.violation("cycle:" + p.key, "allocation registry", p.detail); }
         obs.push_back(o);
         rep.count("cycles");
+        bool stop_early = cy >= 1 && obs[0].advanced && obs[0].reclaimed && (!o.advanced || !o.reclaimed); // a later cycle failed: no need to wait out the cap again
         JObj cj;
         cj.num("cycle", cy).num("epoch_start", o.epoch_start).num("epoch_end", o.epoch_end).num("epoch_thread_loops", o.epoch_ticks).num("gc_thread_loops", o.gc_ticks).num("reclaimed_by_gc_thread_while_running", o.reclaimed_running).num("periods_waited", o.periods_waited);
         rep.sample(cj.done(), 8);
         if (cy >= 1) { rep.distinct(mix64(cy, (leave_open ? 1 : 0) + (do_destroy ? 2 : 0))); }
+        if (stop_early) { break; }
     }
     // ---- compare later cycles with the first
     if (!obs.empty()) {
